@@ -352,6 +352,7 @@ struct Run {
     log: Vec<Rec>,
     steps: Vec<StepInfo>,
     /// models[j] = reference state after j steps (models[0] = state of the base image)
+    #[allow(dead_code)]
     models: Vec<Model>,
     model_obs: Vec<Obs>,
     /// shape hash of log[..steps[i].end] for every step i
@@ -698,7 +699,9 @@ fn run_job(job: &Job, runs: &[Run], fx: &Fx, rep: &mut Report) {
                 }
             }
             rep.case(key, &class, mask != 0 || !w0.items.is_empty());
-            if rep.wants_sample() && mask % 5 == 2 && (mask.count_ones() as usize) < wins[j].items.len() {
+            if rep.wants_sample()
+                && (class == "op:recovered-new" || (mask % 5 == 2 && (mask.count_ones() as usize) < wins[j].items.len()))
+            {
                 if let Reopen::Opened(obs) = &out {
                     let w = &wins[j];
                     rep.sample(|| {
@@ -808,7 +811,7 @@ fn main() {
             .unwrap_or(ctx.tier.pick(150, 13 * 60)),
     );
     let mut rep = Report::new();
-    rep.sample_cap = 8;
+    rep.sample_cap = 12;
 
     if let Some(c) = ctx.replay_case() {
         replay(&ctx, &c, &mut rep);
@@ -919,12 +922,20 @@ fn main() {
                     skipped.fetch_add(job.masks.len() as u64, Ordering::Relaxed);
                     return rr;
                 }
-                rr.sample_cap = 2;
+                rr.sample_cap = 6;
                 run_job(job, &runs, &fx, &mut rr);
                 rr
             })
             .reduce(Report::new, Report::merge);
         let cap = rep.sample_cap;
+        let mut level_rep = level_rep;
+        // a few samples per history length; prefer scenarios of real operations
+        level_rep.samples.sort_by_key(|s| match s["class"].as_str() {
+            Some("op:recovered-new") => 0,
+            Some(c) if c.starts_with("op:") => 1,
+            _ => 2,
+        });
+        level_rep.samples.truncate(3);
         rep.merge_in(level_rep);
         rep.sample_cap = cap;
         if stop.load(Ordering::Relaxed) {
@@ -955,7 +966,7 @@ fn main() {
             json!({"history": {"start": r.start, "ops": r.ops}, "steps": r.steps,
                    "log": r.log.iter().map(|x| x.describe()).collect::<Vec<_>>()}),
         );
-        rep.samples.truncate(8);
+        rep.samples.truncate(12);
     }
     finish_c22(&ctx, rep);
 }
